@@ -524,6 +524,50 @@ func (s *sim) randomModes(c *simChan) {
 	}
 }
 
+func (s *sim) quit(u *simUser) {
+	n := 0
+	for _, c2 := range s.chans {
+		if c2.in && c2.members[u] != nil {
+			n++
+		}
+	}
+	s.emit(s.from(u, "QUIT", Pick(s.r, "Quit: bye", "Ping timeout: 240 seconds", "")))
+	for _, c2 := range s.chans {
+		delete(c2.members, u)
+	}
+	for i, x := range s.users {
+		if x == u {
+			s.users = append(s.users[:i], s.users[i+1:]...)
+			break
+		}
+	}
+	s.dropInvisible()
+	s.cat("quit")
+	if n > 1 {
+		s.cat("quit-multi")
+	}
+}
+
+// renameUser: NICK to a fresh nick or to another spelling of the same nick.
+func (s *sim) renameUser(u *simUser) {
+	var nn string
+	if s.r.Intn(3) == 0 {
+		nn = caseVar(s.r, u.nick, true)
+		if nn != u.nick {
+			s.cat("nick-case")
+		}
+	} else {
+		nn = s.freshNick()
+		s.cat("nick")
+	}
+	e := s.from(u, "NICK", nn)
+	u.nick = nn
+	s.emit(e)
+	if u == s.me {
+		s.cat("nick-me")
+	}
+}
+
 func (s *sim) step() {
 	r := s.r
 	if len(s.pending) > 0 && r.Intn(4) == 0 {
@@ -533,12 +577,67 @@ func (s *sim) step() {
 		return
 	}
 	js := s.joined()
-	if len(js) == 0 || r.Intn(14) == 0 {
+	if len(js) == 0 {
+		// we share no channel with anybody: the server can still rename us, ping us, ...
+		switch r.Intn(6) {
+		case 0, 1:
+			s.renameUser(s.me)
+			s.cat("nick-me-alone")
+			return
+		case 2:
+			s.srv("PING", Pick(r, "irc.test", "12345"))
+			return
+		case 3:
+			s.emit(s.from(s.users[r.Intn(len(s.users))], Pick(r, "PRIVMSG", "NOTICE"), s.me.nick, "hi there"))
+			return
+		}
+		s.meJoin()
+		return
+	}
+	if r.Intn(14) == 0 {
 		s.meJoin()
 		return
 	}
 	c := js[r.Intn(len(js))]
 	ms := s.membersOf(c)
+	if r.Intn(25) == 0 { // we leave one channel or (sometimes) all of them, one after the other
+		all := r.Intn(3) == 0
+		for _, c2 := range js {
+			if !all && c2 != c {
+				continue
+			}
+			ms2 := s.membersOf(c2)
+			if r.Intn(3) == 0 {
+				s.emit(s.from(ms2[r.Intn(len(ms2))], "KICK", s.chanV(c2), s.nickV(s.me), "bye"))
+				s.cat("kick-me")
+			} else {
+				s.emit(s.from(s.me, "PART", s.chanV(c2)))
+				s.cat("part-me")
+			}
+			s.leave(c2, s.me)
+		}
+		if len(s.joined()) == 0 {
+			s.cat("zero-channels")
+		}
+		return
+	}
+	if r.Intn(30) == 0 && len(ms) > 1 { // a case-only rename of somebody else, who then leaves
+		u := ms[r.Intn(len(ms))]
+		if u != s.me {
+			nn := caseVar(r, u.nick, true)
+			e := s.from(u, "NICK", nn)
+			u.nick = nn
+			s.emit(e)
+			if r.Intn(2) == 0 {
+				s.emit(s.from(u, "PART", s.chanV(c)))
+				s.leave(c, u)
+			} else {
+				s.quit(u)
+			}
+			s.cat("nick-case-then-leave")
+			return
+		}
+	}
 	switch k := r.Intn(100); {
 	case k < 14: // somebody joins a channel we are in
 		var cands []*simUser
@@ -589,36 +688,13 @@ func (s *sim) step() {
 		if u == s.me {
 			return
 		}
-		s.emit(s.from(u, "QUIT", Pick(r, "Quit: bye", "Ping timeout: 240 seconds", "")))
-		for _, c2 := range s.chans {
-			delete(c2.members, u)
-		}
-		for i, x := range s.users {
-			if x == u {
-				s.users = append(s.users[:i], s.users[i+1:]...)
-				break
-			}
-		}
-		s.dropInvisible()
-		s.cat("quit")
+		s.quit(u)
 	case k < 43: // nick change
 		u := ms[r.Intn(len(ms))]
-		var nn string
-		if r.Intn(3) == 0 {
-			nn = caseVar(r, u.nick, true)
-			if nn != u.nick {
-				s.cat("nick-case")
-			}
-		} else {
-			nn = s.freshNick()
-			s.cat("nick")
+		if r.Intn(4) == 0 {
+			u = s.me
 		}
-		e := s.from(u, "NICK", nn)
-		u.nick = nn
-		s.emit(e)
-		if u == s.me {
-			s.cat("nick-me")
-		}
+		s.renameUser(u)
 	case k < 58:
 		s.randomModes(c)
 	case k < 64:
